@@ -80,8 +80,143 @@ func (c *canon) run() {
 func (c *canon) stmts(list []ast.Stmt) []ast.Stmt {
 	for i, s := range list {
 		list[i] = c.stmt(s)
+		if f, ok := list[i].(*ast.ForStmt); ok {
+			var prev ast.Stmt
+			if i > 0 {
+				prev = list[i-1]
+			}
+			if rs := c.recvLoopToRange(f, prev); rs != nil {
+				list[i] = rs
+			}
+		}
 	}
 	return list
+}
+
+// recvLoopToRange: the spelled-out forms of `for v := range ch`:
+//
+//	for { v, ok := <-ch; if !ok { break }; BODY }             → for v := range ch { BODY }
+//	for open := true; open; { v, open = <-ch }                → for v = range ch { }
+//	var v T; for open := true; open && v == nil; { v, open = <-ch }   → for v = range ch { if v != nil { break } }
+//
+// (the last one only directly after the declaration that makes v the zero value).
+func (c *canon) recvLoopToRange(f *ast.ForStmt, prev ast.Stmt) ast.Stmt {
+	recvOf := func(s ast.Stmt) (v ast.Expr, okID *ast.Ident, ch ast.Expr, tok token.Token, good bool) {
+		as, isAs := s.(*ast.AssignStmt)
+		if !isAs || len(as.Lhs) != 2 || len(as.Rhs) != 1 {
+			return
+		}
+		u, isU := ast.Unparen(as.Rhs[0]).(*ast.UnaryExpr)
+		if !isU || u.Op != token.ARROW || !c.pureExpr(u.X) {
+			return
+		}
+		id, isID := as.Lhs[1].(*ast.Ident)
+		if !isID {
+			return
+		}
+		return as.Lhs[0], id, u.X, as.Tok, true
+	}
+	isBlank := func(e ast.Expr) bool { id, ok := e.(*ast.Ident); return ok && id.Name == "_" }
+	// form 1
+	if f.Init == nil && f.Cond == nil && f.Post == nil && len(f.Body.List) >= 2 {
+		v, okID, ch, tok, good := recvOf(f.Body.List[0])
+		if good && tok == token.DEFINE {
+			if is, isIf := f.Body.List[1].(*ast.IfStmt); isIf && is.Init == nil && is.Else == nil && len(is.Body.List) == 1 {
+				if bs, isBr := is.Body.List[0].(*ast.BranchStmt); isBr && bs.Tok == token.BREAK && bs.Label == nil {
+					if u, isU := ast.Unparen(is.Cond).(*ast.UnaryExpr); isU && u.Op == token.NOT && ObjOf(c.info, u.X) == c.info.Defs[okID] && c.info.Defs[okID] != nil {
+						rest := f.Body.List[2:]
+						used := false
+						for _, st := range rest {
+							ast.Inspect(st, func(n ast.Node) bool {
+								if id, ok := n.(*ast.Ident); ok && c.info.Uses[id] == c.info.Defs[okID] {
+									used = true
+								}
+								return !used
+							})
+						}
+						if !used {
+							rs := &ast.RangeStmt{For: f.For, TokPos: f.For, Tok: token.DEFINE, Range: f.For, X: ch, Body: &ast.BlockStmt{Lbrace: f.Body.Lbrace, List: rest, Rbrace: f.Body.Rbrace}}
+							if !isBlank(v) {
+								rs.Key = v
+							} else {
+								rs.Tok = token.ILLEGAL
+							}
+							return rs
+						}
+					}
+				}
+			}
+		}
+	}
+	// forms 2 and 3
+	init, isInit := f.Init.(*ast.AssignStmt)
+	if !isInit || init.Tok != token.DEFINE || len(init.Lhs) != 1 || len(init.Rhs) != 1 || f.Post != nil || len(f.Body.List) != 1 {
+		return nil
+	}
+	openID, isID := init.Lhs[0].(*ast.Ident)
+	if !isID || ValueKey(c.info, init.Rhs[0]) != "true" {
+		return nil
+	}
+	openObj := c.info.Defs[openID]
+	v, okID, ch, tok, good := recvOf(f.Body.List[0])
+	if !good || tok != token.ASSIGN || openObj == nil || c.info.Uses[okID] != openObj {
+		return nil
+	}
+	cond := ast.Unparen(f.Cond)
+	if ObjOf(c.info, cond) == openObj {
+		rs := &ast.RangeStmt{For: f.For, TokPos: f.For, Tok: token.ASSIGN, Range: f.For, X: ch, Body: &ast.BlockStmt{Lbrace: f.Body.Lbrace, Rbrace: f.Body.Rbrace}}
+		if !isBlank(v) {
+			rs.Key = v
+		} else {
+			rs.Tok = token.ILLEGAL
+		}
+		return rs
+	}
+	be, isBin := cond.(*ast.BinaryExpr)
+	if !isBin || be.Op != token.LAND || isBlank(v) {
+		return nil
+	}
+	var other ast.Expr
+	switch {
+	case ObjOf(c.info, be.X) == openObj:
+		other = be.Y
+	case ObjOf(c.info, be.Y) == openObj:
+		other = be.X
+	default:
+		return nil
+	}
+	x, op, isNil := IsNilCompare(c.info, other)
+	vobj := ObjOf(c.info, v)
+	if !isNil || op != token.EQL || vobj == nil || ObjOf(c.info, x) != vobj {
+		return nil
+	}
+	// v must be the zero value when the loop starts: declared without a value right before it
+	ds, isDecl := prev.(*ast.DeclStmt)
+	if !isDecl {
+		return nil
+	}
+	zero := false
+	if gd, ok := ds.Decl.(*ast.GenDecl); ok && gd.Tok == token.VAR {
+		for _, sp := range gd.Specs {
+			if vs, ok := sp.(*ast.ValueSpec); ok && len(vs.Values) == 0 {
+				for _, nm := range vs.Names {
+					if c.info.Defs[nm] == vobj {
+						zero = true
+					}
+				}
+			}
+		}
+	}
+	if !zero {
+		return nil
+	}
+	neq := &ast.BinaryExpr{X: x, OpPos: other.Pos(), Op: token.NEQ, Y: ast.Unparen(other).(*ast.BinaryExpr).Y}
+	if ValueKey(c.info, neq.Y) != "nil" {
+		neq.Y = ast.Unparen(other).(*ast.BinaryExpr).X
+	}
+	c.reg(other, neq)
+	brk := &ast.IfStmt{If: other.Pos(), Cond: neq, Body: &ast.BlockStmt{Lbrace: other.Pos(), List: []ast.Stmt{&ast.BranchStmt{TokPos: other.Pos(), Tok: token.BREAK}}, Rbrace: other.End()}}
+	return &ast.RangeStmt{For: f.For, Key: v, TokPos: f.For, Tok: token.ASSIGN, Range: f.For, X: ch, Body: &ast.BlockStmt{Lbrace: f.Body.Lbrace, List: []ast.Stmt{brk}, Rbrace: f.Body.Rbrace}}
 }
 
 func (c *canon) block(b *ast.BlockStmt) {
@@ -120,6 +255,7 @@ func (c *canon) stmt(s ast.Stmt) ast.Stmt {
 		c.block(x.Body)
 	case *ast.SwitchStmt:
 		c.block(x.Body)
+		c.taglessToTagSwitch(x)
 	case *ast.TypeSwitchStmt:
 		c.block(x.Body)
 	case *ast.SelectStmt:
@@ -455,6 +591,44 @@ func (c *canon) ifChainToSwitch(first *ast.IfStmt) ast.Stmt {
 		sw.Body.List = append(sw.Body.List, &ast.CaseClause{Case: def.Lbrace, List: nil, Colon: def.Lbrace, Body: def.List})
 	}
 	return sw
+}
+
+// taglessToTagSwitch: `switch { case T == A: … case T == B || T == C: … }` over one pure T becomes `switch T { case A: … case B, C: … }`.
+func (c *canon) taglessToTagSwitch(sw *ast.SwitchStmt) {
+	if sw.Tag != nil || len(sw.Body.List) == 0 {
+		return
+	}
+	var tag ast.Expr
+	lists := make([][]ast.Expr, len(sw.Body.List))
+	for i, cl := range sw.Body.List {
+		cc := cl.(*ast.CaseClause)
+		for _, e := range cc.List {
+			t, vals, ok := c.eqTests(c.cond(e))
+			if !ok {
+				return
+			}
+			if tag == nil {
+				tag = t
+			} else if ExprStr(tag) != ExprStr(t) {
+				return
+			}
+			lists[i] = append(lists[i], vals...)
+		}
+		for _, st := range cc.Body {
+			if bs, ok := st.(*ast.BranchStmt); ok && bs.Tok == token.FALLTHROUGH {
+				return
+			}
+		}
+	}
+	if tag == nil {
+		return
+	}
+	sw.Tag = tag
+	for i, cl := range sw.Body.List {
+		if cc := cl.(*ast.CaseClause); cc.List != nil {
+			cc.List = lists[i]
+		}
+	}
 }
 
 // T: `if x, ok := E.(T); ok { A } else { B }` becomes `switch x := E.(type) { case T: A; default: B }`
